@@ -34,7 +34,7 @@ def main():
     dst = os.path.join(VERIF, "seeded", name)
     os.makedirs(dst, exist_ok=True)
     for f in ("patch.diff", "demo.py", "notes.md"):
-        if os.path.exists(os.path.join(src, f)):
+        if os.path.exists(os.path.join(src, f)) and os.path.abspath(src) != os.path.abspath(dst):
             shutil.copyfile(os.path.join(src, f), os.path.join(dst, f))
     wt = f"/tmp/ev_{name}"
     scratch = f"/tmp/simcheck-scratch-{name}"
@@ -45,7 +45,7 @@ def main():
     old_meta = {}
     if os.path.exists(os.path.join(dst, "meta.json")):
         old_meta = json.load(open(os.path.join(dst, "meta.json")))
-    for k in ("summary", "needs", "first_verdict_with_committed_check", "known_blind_spot"):
+    for k in ("summary", "needs", "first_verdict_with_committed_check", "known_blind_spot", "note"):
         if k in old_meta:
             meta[k] = old_meta[k]
     if "--skip-tests" in flags:  # the suite result of the earlier full evaluation still stands (same patch, same tree)
